@@ -31,10 +31,12 @@ def main(argv):
     checks = argv[2:] or [prop]
     tier = os.environ.get('SEED_TIER', 'quick')
     out = []
-    for patch in sorted(glob.glob(os.path.join(cand, 'mutation_*.patch'))):
-        k = os.path.basename(patch)[len('mutation_'):-len('.patch')]
-        demo = os.path.join(cand, 'mutation_%s_demo.py' % k)
-        meta = json.load(open(os.path.join(cand, 'mutation_%s.json' % k)))
+    prefix = os.environ.get('SEED_PREFIX', '')          # e.g. "r3_" for files r3_mutation_1.patch
+    for patch in sorted(glob.glob(os.path.join(cand, prefix + 'mutation_*.patch'))):
+        k = os.path.basename(patch)[len(prefix + 'mutation_'):-len('.patch')]
+        demo = os.path.join(cand, prefix + 'mutation_%s_demo.py' % k)
+        meta = json.load(open(os.path.join(cand, prefix + 'mutation_%s.json' % k)))
+        k = prefix + k
         scratch = tempfile.mkdtemp(prefix='pregex-seed.', dir='/var/tmp')
         try:
             sh(['git', '-C', '/repo', 'worktree', 'add', '--detach', scratch + '/wt', 'HEAD'])
